@@ -635,7 +635,10 @@ class ArgSpecCache:
         for evaluation_func in evaluation_funcs:
             if evaluation_func is None or not hasattr(evaluation_func, "__globals__"):
                 return None
-            sig = self._cached_get_argspec(
+            # evaluated() returns the function it is given, so evaluation_func is
+            # usually func itself: do not cache its plain signature under that key,
+            # where it would stay if anything below raises
+            sig = self._uncached_get_argspec(
                 evaluation_func, impl, is_asynq, in_overload_resolution=True
             )
             if not isinstance(sig, Signature):
